@@ -72,6 +72,17 @@ class ParamsSuite(ProgBaseSuite):
             for pre in ([], [["i", 1]], [["t", 8], ["i", 2]]):
                 ops.append({"op": "dispense_well", "rack_label": "P", "position": 1, "volume": "10", "kw": {"tip": {"many": pre + [bad]}}})
         ops.append({"op": "aspirate_well", "rack_label": "P", "position": 1, "volume": "10", "kw": {"tip": {"many": []}}})
+        # collections of other iterable types, and long collections (more than eight entries necessarily repeat tips)
+        for m in (3, 129, 255, 90):
+            sub = [n + 1 for n in range(8) if (m >> n) & 1]
+            for kind in ("set", "frozenset", "dictkeys", "tuple"):
+                rep = rng.choice("it")
+                ops.append({"op": rng.choice(["aspirate_well", "dispense_well"]), "rack_label": "P", "position": 1, "volume": "10",
+                            # (one representation per hashed collection: Tip.T4 == 8, so {Tip.T4, 8} is a one-element set)
+                            "kw": {"tip": {"many": [["i" if kind == "array" else rep, n] for n in sub], "as": kind}}})
+        for ln in (9, 12, 16, 24):
+            ops.append({"op": "aspirate_well", "rack_label": "P", "position": 1, "volume": "10",
+                        "kw": {"tip": {"many": [[rng.choice("it"), rng.randint(1, 8)] for _ in range(ln)]}}})
         # ---- A / D fields
         n = 500 if tier == "quick" else 15000
         vols = ["0", "1/8", "25/2", "200", "950", "951", "1000", "7158278", "7158279", "1/1024", "12345/8", "-1", "-1/1024", "nan", "inf", "-inf",
@@ -152,7 +163,8 @@ class ParamsSuite(ProgBaseSuite):
             if r < 0.35:
                 lines = [rtext(rng, semi=0.08) for _ in range(rng.choice([1, 1, 2, 3]))]
                 ops.append({"op": "comment", "text": rng.choice(["\n".join(lines), " " + lines[0] + "  ", "", None, "\n", " \n x \n",
-                                                                "\t" + lines[0], lines[0] + "\r\n" + lines[-1] + "\r\n", "\t", "\u00a0" + lines[0] + "\u00a0", "a\u0085\nb\x0b"])})
+                                                                "\t" + lines[0], lines[0] + "\r\n" + lines[-1] + "\r\n", "\t", "\u00a0" + lines[0] + "\u00a0", "a\u0085\nb\x0b",
+                                                                "Step 1\n \nStep 2", "a\n\t\nb\n\n\nc", " \n \n"])})
             elif r < 0.6:
                 ops.append({"op": "wash", "scheme": rng.choice([1, 2, 3, 4, 0, 5, -1, {"other": "float2"}, {"other": "str"}, {"other": "none"}])})
             elif r < 0.7:
@@ -316,6 +328,15 @@ class EvoCmdSuite(ProgBaseSuite):
                         a["arm"] = rng.choice([0, 1, 0, 1, 0, 1, 2, -1])
                     ops.append({"op": "evo_wash", "args": a})
             cases.append({"dev": "evo", "wl": wl, "labware": specs, "ops": ops, "family": "evocmd"})
+        # per-tip volumes that are not a flat list of numbers (oracle-only: the model has no such argument)
+        for kind in ("nested", "tuple"):
+            for asp in (True, False):
+                specs = [{"kind": "plate", "name": "P", "rows": 8, "cols": 3, "min": "0", "max": "2000", "init": {"shape": "scalar", "v": "1000"}}]
+                ops = [{"op": "evo_asp" if asp else "evo_disp", "lw": 0, "wells": {"shape": "list", "v": ["A01", "B01", "C01"]}, "grid": 10, "site": 2,
+                        "tips": [["i", 1], ["i", 2], ["i", 3]], "volume": {"t": kind, "v": ["10", "41/2", "121/4"]}, "lc": "Water free dispense", "arm": 0, "label": None}]
+                if not asp:
+                    ops[0]["comps"] = None
+                cases.append({"dev": "evo", "wl": wlcfg(random.Random(3), "950"), "labware": specs, "ops": ops, "family": "evocmd"})
         return cases
 
     def nontrivial(self, case, obs):
